@@ -271,7 +271,7 @@ def match_known(known, pid, job, msg, where):
 def demangle(names):
     try:
         r = subprocess.run(['c++filt'], input='\n'.join(n.lstrip('@').strip('"') for n in names), capture_output=True, text=True)
-        return r.stdout.split('\n')[:len(names)]
+        return [x if len(x) <= 160 else x[:80] + ' ... ' + x[-70:] for x in r.stdout.split('\n')[:len(names)]]
     except Exception: return list(names)
 
 # ---------------------------------------------------------------- main entry: check one property
